@@ -296,6 +296,10 @@ class TrajectoryCalc:
         :return: Barrel elevation to hit height zero at zero distance
         """
         self._init_trajectory(shot_info)
+        # Start the search on the sight line, not at the elevation implied by the zero stored before (or by the shot's
+        # hold-over): a stale zero a few degrees off puts the first trajectory, or the one after the first correction,
+        # outside the calculator's limits and the search raises RangeError for a perfectly reachable target
+        self.barrel_elevation = self.look_angle
 
         _cZeroFindingAccuracy = self._config.cZeroFindingAccuracy
         _cMaxIterations = self._config.cMaxIterations
